@@ -6,7 +6,7 @@ package main
 import "strings"
 
 // priority: more specific shapes first.
-var knownPriority = []string{"K08", "K09", "K10", "K30", "N05", "K13", "K12", "K11", "K06", "K05", "K37", "N07", "N06", "N04", "N01", "N03", "N02", "K04", "K07", "K01", "K02", "K03", "K14"}
+var knownPriority = []string{"K08", "K09", "K10", "K30", "N09", "N05", "K13", "K12", "K11", "K06", "K05", "K37", "N08", "N07", "N06", "N04", "N01", "N03", "N10", "N11", "N02", "K04", "K07", "K01", "K02", "K03", "K14", "K38"}
 
 func classify(input, output string, c config, v verdict) string {
 	ids := scanKnown(input)
@@ -29,8 +29,8 @@ func classify(input, output string, c config, v verdict) string {
 			if c.Keep {
 				continue // with name keeping nothing is renamed: not the with-renaming defect
 			}
-		case "K37":
-			continue // Math.pow is only a version finding
+		case "K37", "K38":
+			continue // only version findings
 		}
 		return knownSignatures[id]
 	}
